@@ -126,10 +126,18 @@ func geti(kv map[string]string, k string, d int) int {
 	return d
 }
 
+// the parser configuration of a request: the default one, or Config{CommentChar: cc} when cc is given (cc=0 is the zero Config)
+func cfgOf(kv map[string]string) parser.Config {
+	if _, ok := kv["cc"]; ok {
+		return parser.Config{CommentChar: uint8(geti(kv, "cc", 0))}
+	}
+	return parser.NewDefaultConfig()
+}
+
 func doParse(kv map[string]string) string {
 	r := &faultReader{data: []byte(kv["data"]), fault: geti(kv, "fault", -1), chunk: geti(kv, "chunk", 0)}
 	var lines []string
-	err := parser.ParseStreamCallback(r, parser.NewDefaultConfig(), func(n *shared.ParserNode, err error) (bool, error) {
+	err := parser.ParseStreamCallback(r, cfgOf(kv), func(n *shared.ParserNode, err error) (bool, error) {
 		if err != nil {
 			if n != nil {
 				lines = append(lines, "X node-with-error")
@@ -230,7 +238,8 @@ func doChan(kv map[string]string) string {
 	if geti(kv, "jitter", 0) > 0 {
 		prodJitter = rand.New(rand.NewSource(seed + 7919))
 	}
-	p := parser.NewParser(parser.NewDefaultConfig())
+	p := parser.NewParser(cfgOf(kv))
+	pause := time.Duration(geti(kv, "pause", 0)) * time.Millisecond
 	exited := make(chan struct{})
 	go func() {
 		defer close(exited)
@@ -242,9 +251,12 @@ func doChan(kv map[string]string) string {
 		}
 	}()
 	var lines []string
-	timeout := time.After(5 * time.Second)
+	timeout := time.After(5*time.Second + 40*pause)
 	done := false
 	for !done {
+		if pause > 0 {
+			time.Sleep(pause) // a slow consumer: it comes back to its receive loop late
+		}
 		if geti(kv, "jitter", 0) > 0 {
 			switch rng.Intn(4) {
 			case 0:
